@@ -301,6 +301,7 @@ def read(text):
     smi = parts[0]
     cx = parts[1] if len(parts) > 1 else None
     radicals = []
+    fblock = None
     if cx is not None:
         if not (cx.startswith('|') and cx.endswith('|')) or len(parts) > 2:
             raise Borderline('trailing text')
@@ -308,34 +309,72 @@ def read(text):
             radicals.extend(int(x) for x in m[3:].split(','))
         if len(set(radicals)) != len(radicals):
             raise Borderline('duplicate radical indices')
-        rest = _cx_rad.sub('', cx.strip('|')).replace(',', '')
-        if rest and not re.fullmatch(r'f:[0-9.,]+', cx.strip('|')) and rest.strip():
+        rest = _cx_rad.sub('', cx.strip('|')).strip(',').replace(',,', ',')
+        if rest and not re.fullmatch(r'f:[0-9]+(?:\.[0-9]+)+(?:,[0-9]+(?:\.[0-9]+)+)*', rest):
             raise Borderline('other CXSMILES blocks')
+        fblock = rest[2:] if rest else None
     if '>' in smi:
         if smi.count('>') != 2:
             raise Reject('reaction arrows')
-        if cx is not None and 'f:' in cx:
-            raise Borderline('fragment grouping is checked by C15')
-        roles = []
-        for role in smi.split('>'):
-            mols = []
+        groups = []
+        if fblock:
+            for g in fblock.split(','):
+                try:
+                    members = sorted(int(x) for x in g.split('.'))
+                except ValueError:
+                    raise Borderline('malformed group block')
+                if len(members) < 2:
+                    raise Borderline('group of one piece')
+                groups.append(members)
+            flat = [x for g in groups for x in g]
+            if len(set(flat)) != len(flat):
+                raise Borderline('piece named in two groups')
+        pieces = []          # (role index, text) in written order
+        for k, role in enumerate(smi.split('>')):
             if role:
                 for piece in role.split('.'):
                     if not piece:
                         raise Borderline('empty component')
-                    mols.append(read_molecule(piece))
-            roles.append(mols)
-        if not any(roles):
+                    pieces.append((k, piece))
+        if not pieces:
             raise Reject('reaction without molecules')
-        if radicals and max(radicals) >= sum(len(r.atoms) for role in roles for r in role):
+        for g in groups:
+            if g[-1] >= len(pieces):
+                raise Borderline('group names a piece that is not there')
+            if len({pieces[x][0] for x in g}) != 1:
+                raise Borderline('group across roles')
+        first = {g[0]: g for g in groups}
+        later = {x for g in groups for x in g[1:]}
+        # every piece alone first: its atom count gives the written atom numbering
+        singles = []
+        for idx, (_, t) in enumerate(pieces):
+            try:
+                singles.append(read_molecule(t))
+            except Reject:
+                if idx in later or idx in first:
+                    # e.g. a ring closure opened in one piece and closed in another piece of the same group
+                    raise Borderline('piece of a group is not a molecule on its own')
+                raise
+        starts, k = [], 0
+        for r in singles:
+            starts.append(k)
+            k += len(r.atoms)
+        if radicals and max(radicals) >= k:
             raise Borderline('radical index out of range')
-        k = 0
-        for role in roles:
-            for r in role:
-                for j in range(len(r.atoms)):
-                    if k + j in radicals:
-                        r.radicals.add(j)
-                k += len(r.atoms)
+        roles = [[], [], []]
+        for idx, (k, t) in enumerate(pieces):
+            if idx in later:
+                continue
+            members = first.get(idx, [idx])
+            rec, offs = None, {}
+            for x in members:
+                offs[x] = len(rec.atoms) if rec is not None else 0
+                rec = read_molecule(pieces[x][1], rec)
+            for x in members:
+                for j in range(len(singles[x].atoms)):
+                    if starts[x] + j in radicals:
+                        rec.radicals.add(offs[x] + j)
+            roles[k].append(rec)
         return 'reaction', roles
     rec = read_molecule(smi)
     for x in radicals:
